@@ -10,6 +10,8 @@ FUNCS = ["cfg_lexer_include", "<<EOF>> rule actions (all start conditions)", "cf
 
 def build_obs(tier, tables):
     obs = push_obs("c13") + pop_obs("c13") + rest_obs("c13", depths=(1, 3))
+    obs.append(Ob("c13-flex-unreadable-input", "flex_input.c", [], unwind=6, checks="none", must_reach=("end of harness",),
+                  params={"what": "real yy_get_next_buffer() of the flex output with fread() == 0 and ferror() set (a directory as include target)"}))
     obs.append(Ob("c13-include-argc", "incl_call.c", [], unwind=6, checks="std", must_reach=("end of harness", "argc", "one")))
     obs += parse_step_obs(["CHK_C14", "CHK_C01"], "c13call", states=[7, 8, 9], tier=tier)
     obs += [o for o in parse_step_obs(["CHK_C17"], "c13sec", states=[5], tier=tier, extra_all=("WITH_PATH=1",)) if "validcb" not in o.key]
